@@ -22,6 +22,7 @@ p!(PI64, i64);
 p!(PBool, bool);
 p!(PEnum, Color);
 p!(PUuid, uuid::Uuid);
+p!(PU64, u64);
 
 #[derive(Debug, Deserialize, JsonSchema)]
 pub struct QOptStr {
